@@ -599,6 +599,11 @@ void rs_verif_hook(unsigned point, const void *p, uint64_t a, uint64_t b)
 			uint32_t q = atomic_fetch_add_explicit(&m->verif_q, 1, memory_order_relaxed);
 			if(q != 0)
 				vh_violation("C06", "message-queued-twice", "message id %llu {t=%a,type=%u,flags=%x} inserted while already queued (%u)", (unsigned long long)m->verif_id, m->dest_t, m->m_type, m->raw_flags, q);
+			if(!(m->dest >= lid_node_first && m->dest < lid_node_first + n_lps_node))
+				vh_violation("C14", "queue-insert-for-lp-of-another-node", "node %d (LPs %llu..%llu) puts message id %llu for LP %llu in a local queue (thread index %llu of %u)", (int)nid, (unsigned long long)lid_node_first,
+				    (unsigned long long)(lid_node_first + n_lps_node - 1), (unsigned long long)m->verif_id, (unsigned long long)m->dest, (unsigned long long)a, global_config.n_threads);
+			else if(LM(&lps[m->dest])->owner && (int)a != LM(&lps[m->dest])->owner - 1)
+				vh_violation("C14", "queue-insert-to-non-owner-thread", "message for LP %llu (initialised by thread %d) inserted in the queue of thread %llu", (unsigned long long)m->dest, LM(&lps[m->dest])->owner - 1, (unsigned long long)a);
 			failpoint(vh_cfg.fp_level >= 3 ? 200 : 0, 3);
 			return;
 		}
@@ -666,6 +671,12 @@ void rs_verif_hook(unsigned point, const void *p, uint64_t a, uint64_t b)
 			if(t->in_silent)
 				vh_violation("C05", "event-emitted-during-silent-execution", "a re-executed event of LP %llu scheduled message id %llu", (unsigned long long)(current_lp - lps), (unsigned long long)m->verif_id);
 			CNT(a ? VC_SENDS_REMOTE : VC_SENDS_LOCAL);
+			{ /* C14 at the send site: handled as local exactly when the receiver is one of the LPs this node initialised */
+				bool mine = m->dest >= lid_node_first && m->dest < lid_node_first + n_lps_node;
+				if(mine == (a != 0))
+					vh_violation("C14", "send-routing-disagrees-with-ownership", "node %d (LPs %llu..%llu) treats the event for LP %llu as %s", (int)nid, (unsigned long long)lid_node_first,
+					    (unsigned long long)(lid_node_first + n_lps_node - 1), (unsigned long long)m->dest, a ? "remote" : "local");
+			}
 			struct lpmon *lm = LM(current_lp);
 			sh_push(lm, (struct shent){.tagged = (uintptr_t)m | (a ? 2 : 1), .id = m->verif_id, .ts = m->dest_t, .kind = a ? 2 : 1});
 			return;
@@ -1121,9 +1132,13 @@ void rs_verif_hook(unsigned point, const void *p, uint64_t a, uint64_t b)
 			failpoint(vh_cfg.fp_level >= 2 ? 6 : 0, 7);
 			return;
 		}
-		case VH_MPI_SEND:
+		case VH_MPI_SEND: {
+			const struct lp_msg *m = (const struct lp_msg *)p;
+			if(vh_cfg.monitors && ((m->dest >= lid_node_first && m->dest < lid_node_first + n_lps_node) || (nid_t)b != lid_to_nid(m->dest)))
+				vh_violation("C14", "mpi-send-to-wrong-node", "node %d sends the %s for LP %llu to node %llu, its owner is node %d", (int)nid, a ? "anti-message" : "event", (unsigned long long)m->dest, (unsigned long long)b, (int)lid_to_nid(m->dest));
 			failpoint(vh_cfg.fp_level >= 2 ? 10 : 0, 7);
 			return;
+		}
 		default:
 			return;
 	}
